@@ -80,7 +80,12 @@ func clone(b []byte) []byte {
 	if b == nil {
 		return nil
 	}
-	return append([]byte{}, b...)
+	// exactly as much capacity as length: a read past the end of an input that happens to stay
+	// inside spare capacity (b[2:5] of a 4-byte slice) must fail the way it would for a caller
+	// whose slice ends there
+	out := make([]byte, len(b))
+	copy(out, b)
+	return out[:len(b):len(b)]
 }
 
 func cloneAll(bs [][]byte) [][]byte {
